@@ -5,7 +5,7 @@
 From Coq Require Import String.
 From Coq Require Import List Bool Arith NArith ZArith.
 Import ListNotations.
-Require Import PyLib Str IpModel TextModel TotalProofs G_fn_files RefJun RefValue RefIo.
+Require Import PyLib Str IpModel TextModel TotalProofs G_fn_files G_fn_files2 RefJun RefValue RefIo RefPipeline.
 
 (* FileAnonymizer.anonymize_io translated from the source IS the model's anonymize_io: on every line the stages run in the fixed order secrets,
    IPv6, IPv4, sensitive words, AS numbers, each only when enabled and each on the output of the one before; the state (secret table, the two IP
@@ -28,5 +28,21 @@ Theorem C15G_premises_are_met :
   ok_fa (match fa_a4 f with Some a => a | None => d4 end) (match fa_a6 f with Some a => a | None => d6 end) (fa_words f) (fa_as f) f.
 Proof. exact ok_fa_self. Qed.
 
+(* ... and the same with NOTHING of the pipeline left uninterpreted but the IP anonymizers' own methods, passlib and the regex engine: the translated
+   anonymize_io calling the translated replace_matching_item (with the translated _anonymize_value, $9$ codec, format classifier, enclosing text),
+   the translated anonymize_ip_addr / _anonymize_match for both families, the translated SensitiveWordAnonymizer.anonymize (with its replacement
+   cache, state d) and the translated anonymize_as_numbers, under ONE dispatcher (RefPipeline.U) that meets every stage's contract.
+   io_ascii: the lines that reach the words stage are ASCII (the model's case folding), stated along the model's run. *)
+Theorem C15_generated_pipeline_is_the_model :
+  forall (orc : oracle) (t4 t6 : anonymizer) (wa : option word_anonymizer) (asa : option as_anonymizer) (cls clsw clsa : list Z) (rw saltva : pyval),
+  table_bytes orc ->
+  forall (fuel : nat) (f : file_anonymizer) (lines : list str) (outs0 : list pyval) (d : list (pyval * pyval)) (f' : file_anonymizer) (outs : list str),
+  ok2 t4 t6 wa asa f d -> (io_need orc f lines <= fuel)%nat -> io_ascii orc f lines ->
+  TextModel.anonymize_io orc f lines = Done (f', outs) ->
+  exists d', gen_FileAnonymizer__anonymize_io_all (U orc t4 t6 wa asa) fuel (enc_fa2 cls clsw clsa rw saltva f d) (VList (map vstr lines)) (VList outs0)
+             = Normal (VTuple [VNone; enc_fa2 cls clsw clsa rw saltva f' d'; VList (outs0 ++ map vstr outs)]) /\ ok2 t4 t6 wa asa f' d'.
+Proof. exact gen_pipeline_refines. Qed.
+
 Print Assumptions C15_generated_anonymize_io_is_the_model.
+Print Assumptions C15_generated_pipeline_is_the_model.
 Print Assumptions C15G_premises_are_met.
